@@ -9,7 +9,7 @@ PID = "C18"
 RULE = ("random Bezier segments of degree 1..6 (rational coordinates k/4 in [-10,10], plus a float stream), "
         "parameters t rational in [0,1] (and a few outside), split node lists, query points on / near / far from "
         "the segment; a case is non-trivial when the segment is not degenerate (not all control points equal) "
-        "and, for on-curve queries, the point lies in the segment's bounding box; graphs of functions of degree 2 and 3 (x linear in t, arbitrarily bent): every C(k/32) must be `in` the segment; distinct = SHA-1 of the case")
+        "and, for on-curve queries, the point lies in the segment's bounding box; evaluation and derivative again after the control points were scaled in place; graphs of functions of degree 2 and 3 (x linear in t, arbitrarily bent): every C(k/32) must be `in` the segment; distinct = SHA-1 of the case")
 PROOF_STATUS = ("Props/C18.v: eval = Bernstein sum, derivative = formal derivative, split retraces, box encloses "
                 "(degrees 1..6, all control points, all t), comb = binomial, on_seg sound for any projection")
 
@@ -118,6 +118,21 @@ def check(ctx, case):
         rv = I.outcome(lambda: I.pt(seg.derivate(times)(tt)))
         if rv[0] != "ok" or not U.pt_same(rv[1], ex, exact):
             fails.append(Fail(kind="O", what="derivate(k)(t) is not the k-th derivative", impl=rv, expected=ex))
+        # the same segment object after its control points were changed IN PLACE (what JordanCurve.scale / rotate do
+        # to the shared Point2D objects): evaluation and derivative follow the control points it has now
+        if exact and not fails:
+            kx, ky = F(2), F(3)
+            r = I.outcome(lambda: [p.scale(kx, ky) for p in seg.ctrlpoints])
+            if r[0] == "ok":
+                s2 = [(p[0] * kx, p[1] * ky) for p in s]
+                ex2 = (ex[0] * kx, ex[1] * ky)
+                rv2 = I.outcome(lambda: I.pt(seg.derivate(times)(tt)))
+                ev2 = I.outcome(lambda: I.pt(seg(tt)))
+                if rv2 != ("ok", ex2):
+                    fails.append(Fail(kind="O", what="after an in-place scaling of the control points derivate(k)(t) is not the derivative of the segment as it is now",
+                                      impl=rv2, expected=ex2))
+                if ev2 != ("ok", O.bez(s2, t)):
+                    fails.append(Fail(kind="O", what="after an in-place scaling of the control points segment(t) is not the Bernstein sum", impl=ev2))
     elif k == "split":
         nodes = case["nodes"]
         nn = nodes if exact else [float(x) for x in nodes]
